@@ -404,6 +404,40 @@ pub fn run(ctx: &Ctx, prop: &'static str, quick: u64, thorough: u64) -> Report {
             }
             return;
         }
+        // ---- transport invariance: the same conversation delivered in one read, scripted arrival and
+        //      unlimited writes (the "twin") must give the same callbacks (C01) and the same bytes
+        //      (C04: framing under short writes; C05: every id) - the server is sequential and
+        //      deterministic, so how the bytes were cut cannot matter
+        if matches!(prop, "C01" | "C04" | "C05") && !ctx.miri {
+            let mut twin = m.case.clone();
+            twin.sched = crate::transport::Sched::all();
+            twin.arrival = Arrival::Scripted;
+            twin.write_limit = usize::MAX;
+            twin.log_reads = false;
+            let differs = twin.sched.cuts != case.sched.cuts || twin.sched.cycle != case.sched.cycle || !matches!(case.arrival, Arrival::Scripted) || case.write_limit != usize::MAX;
+            if differs {
+                let t = run_case(&twin);
+                if !matches!(t.outcome, Outcome::Panic { .. }) && !matches!(obs.outcome, Outcome::Panic { .. }) && !harness_panic(&t, rep) {
+                    if prop == "C01" {
+                        let a: Vec<&CbKind> = obs.log.cbs.iter().map(|c| &c.kind).collect();
+                        let b: Vec<&CbKind> = t.log.cbs.iter().map(|c| &c.kind).collect();
+                        if a != b {
+                            let k = a.iter().zip(b.iter()).position(|(x, y)| x != y).unwrap_or(a.len().min(b.len()));
+                            fail("callbacks-depend-on-chunking", format!("callback #{} differs between this delivery and the same bytes delivered in one read: {} vs {} ({} vs {} callbacks in all)", k, obs.log.cbs.get(k).map(cb_summary).unwrap_or("none".into()), t.log.cbs.get(k).map(cb_summary).unwrap_or("none".into()), a.len(), b.len()), rep);
+                            return;
+                        }
+                    } else {
+                        let (oa, ob) = (obs.output(), t.output());
+                        if oa != ob {
+                            let at = first_diff(&oa, &ob);
+                            fail("output-depends-on-transport", format!("the server's output differs from the output for the same bytes delivered in one read with unlimited writes: {} vs {} bytes, first difference at offset {:?} (outcomes {} / {})", oa.len(), ob.len(), at, obs.outcome.describe(), t.outcome.describe()), rep);
+                            return;
+                        }
+                    }
+                    rep.counters.inc("mega_compared_with_single_read_twin");
+                }
+            }
+        }
         // ---- routing / parameters (model vs. callback log, run_on outcome)
         if matches!(prop, "C01" | "C02" | "C08" | "C10" | "C16" | "C17") {
             for (sig, what) in routing_violations(&obs, &m.conv) {
